@@ -103,6 +103,26 @@ def directed_histories():
     return out
 
 
+def directed_cycle_histories():
+    """attempts to make an array contain itself through every inserting operator: directly, through one and through
+    two intermediate containers, into an empty and a non-empty target"""
+    lit = lambda v: {"k": "lit", "v": v}
+    var = lambda x: {"k": "var", "x": x}
+    out = []
+    for tgt in ([], [1]):
+        base = [{"op": "new", "x": "a", "lits": tgt}]
+        one = base + [{"op": "new", "x": "b", "lits": []}, {"op": "pushBack", "x": "b", "val": var("a")}]                       # b = [a]
+        two = one + [{"op": "new", "x": "c", "lits": [0]}, {"op": "pushBack", "x": "c", "val": var("b")}]                       # c = [0, [a]]
+        for pre, via in ((base, "a"), (one, "b"), (two, "c")):
+            for ins in ({"op": "pushBack", "x": "a", "val": var(via)}, {"op": "pushBackUnique", "x": "a", "val": var(via)},
+                        {"op": "set", "x": "a", "i": 0, "val": var(via)}, {"op": "set", "x": "a", "i": 2, "val": var(via)},
+                        {"op": "append", "x": "a", "y": via}):
+                out.append(pre + [ins, {"op": "pushBack", "x": "a", "val": lit(7)}])
+        # append of a wrapper: a append [b] / a append [[b]] where b contains a
+        out.append(one + [{"op": "new", "x": "c", "lits": []}, {"op": "pushBack", "x": "c", "val": var("b")}, {"op": "append", "x": "a", "y": "c"}, {"op": "pushBack", "x": "a", "val": lit(7)}])
+    return out
+
+
 def random_histories(rng, n, length):
     """Deeper random histories (thorough tier). Generated blindly; operations that the spec does not
     enable in the reached state are dropped by replaying the candidate through the real VM's type
@@ -212,6 +232,7 @@ def run(rep, tier, seed, replay):
         nrand, length = (2000, 8) if tier == "quick" else (40000, 12)
         cases += cases_from_histories(random_histories(rng, nrand, length), "r")
         cases += cases_from_histories(directed_histories(), "d")
+        cases += cases_from_histories(directed_cycle_histories(), "y")
     rep.evaluations = len(cases)
     rep.rule = ("every transition (state, op) of the bounded Heap_MC state graph replayed as the shortest history reaching it, "
                 "plus seeded random histories; non-trivial = history with >=2 operations; distinct by operation sequence")
